@@ -88,6 +88,10 @@ var c20CopySources = []string{"", "/", "bk-main", "bk-main/", "/bk-main/obj1", "
 // c20ScopeParts replace the region of the credential scope (quoted back in SignatureDoesNotMatch-style errors).
 var c20ScopeParts = []string{"us\x01east", "us\xffeast", "us<east", "us&east;", "us\"east", "", strings.Repeat("r", 3000), "us\x7feast", "us\u2028east", "%00", "us east"}
 
+// c20AuthDates replace the request date / the day of the credential scope; c20AuthTokens the SignedHeaders list and the signature.
+var c20AuthDates = []string{"", "0", "-1", "2026", "2026092", "20260929", "20260929T", "20260929T0000", "20260929T000000", "20260929T000000ZZ", "99999999T999999Z", "２０２６０９２９T000000Z", "20260929t000000z", strings.Repeat("2", 3000), "Mon, 02 Jan 2006 15:04:05 GMT", "%00"}
+var c20AuthTokens = []string{"", ";", "x", ";;host;;", "HOST", "host;host", "content-length", "host;x-amz-date;nosuchheader", strings.Repeat("a", 3000), "zz", strings.Repeat("ab", 31) + "a", strings.Repeat("g", 64), "%00"}
+
 // w0DirObj is a directory object of the fixture (see c20World).
 const w0DirObj = "dirobj/"
 
@@ -279,6 +283,23 @@ func c20Cases(thorough bool) []c20Case {
 				add(ep.ID, "presigned-credential-region", "credential-scope", v)
 			}
 		}
+		if ep.ID == "GetObject" || ep.ID == "PutObject" || ep.ID == "ListBuckets" || ep.ID == "CreateBucket" {
+			// the authentication elements themselves, replaced after signing (the bytes go out as they are)
+			for _, v := range c20AuthDates {
+				add(ep.ID, "auth:x-amz-date", "auth-element", v)
+				add(ep.ID, "auth:credential-date", "auth-element", v)
+				add(ep.ID, "auth:presigned-date", "auth-element", v)
+				add(ep.ID, "auth:presigned-credential-date", "auth-element", v)
+			}
+			for _, v := range c20AuthTokens {
+				add(ep.ID, "auth:signed-headers", "auth-element", v)
+				add(ep.ID, "auth:signature", "auth-element", v)
+				add(ep.ID, "auth:presigned-signed-headers", "auth-element", v)
+			}
+			for _, v := range c20Numbers {
+				add(ep.ID, "auth:presigned-expires", "auth-element", v)
+			}
+		}
 		if ep.ID == "PutBucketPolicy" {
 			for _, b := range c20JSONBodies {
 				add(ep.ID, "body", "json", b)
@@ -447,6 +468,45 @@ func (c c20Case) build(w *World) *gw.Req {
 				return r
 			}, c.Value)+a[i+len("/"+gw.Region):])
 		}
+	case "auth:x-amz-date":
+		req.Set("X-Amz-Date", sanitizeHeader(c.Value))
+	case "auth:credential-date", "auth:signed-headers", "auth:signature":
+		a := req.Get("Authorization")
+		day := time.Now().UTC().Format("20060102")
+		switch c.Field {
+		case "auth:credential-date":
+			a = strings.Replace(a, "/"+day+"/", "/"+c.Value+"/", 1)
+		case "auth:signed-headers":
+			if i, j := strings.Index(a, "SignedHeaders="), strings.Index(a, ", Signature="); i >= 0 && j > i {
+				a = a[:i] + "SignedHeaders=" + c.Value + a[j:]
+			} else if i, j := strings.Index(a, "SignedHeaders="), strings.Index(a, ",Signature="); i >= 0 && j > i {
+				a = a[:i] + "SignedHeaders=" + c.Value + a[j:]
+			}
+		case "auth:signature":
+			if i := strings.Index(a, "Signature="); i >= 0 {
+				a = a[:i] + "Signature=" + c.Value
+			}
+		}
+		req.Set("Authorization", sanitizeHeader(a))
+	case "auth:presigned-date", "auth:presigned-credential-date", "auth:presigned-signed-headers", "auth:presigned-expires":
+		req.Del("Authorization")
+		day := time.Now().UTC().Format("20060102")
+		date, cday, sh, exp := time.Now().UTC().Format("20060102T150405Z"), day, "host", "600"
+		switch c.Field {
+		case "auth:presigned-date":
+			date = c.Value
+		case "auth:presigned-credential-date":
+			cday = c.Value
+		case "auth:presigned-signed-headers":
+			sh = c.Value
+		case "auth:presigned-expires":
+			exp = c.Value
+		}
+		q := "X-Amz-Algorithm=AWS4-HMAC-SHA256&X-Amz-Credential=" + gw.URIEncode(cred.Access+"/"+cday+"/"+gw.Region+"/s3/aws4_request", true) + "&X-Amz-Date=" + gw.URIEncode(date, true) + "&X-Amz-Expires=" + gw.URIEncode(exp, true) + "&X-Amz-SignedHeaders=" + gw.URIEncode(sh, true) + "&X-Amz-Signature=" + strings.Repeat("ab", 32)
+		if req.Query != "" {
+			q = req.Query + "&" + q
+		}
+		req.Query = q
 	case "presigned-credential-region":
 		req.Del("Authorization")
 		day := time.Now().UTC().Format("20060102")
@@ -609,7 +669,7 @@ func C20(r *ck.Run) {
 		c20Worker(r, cases, shard, n, from, os.Getenv("C20_PROGRESS"))
 		return // Finish() writes the partial (VERIF_SHARD is set by the parent)
 	}
-	r.Rule("the valid request of every endpoint shape with ONE field (TWO on the listing endpoints, thorough) replaced by every member of that field's class menu — numbers (empty, 0, -1, 2^31, 2^63, 2^64, 1e3, blanks, full-width digits), ids/markers (absent, 1 KiB, NUL, bad escapes, traversal), 31 XML bodies per document type, 17 JSON policies, copy sources, ranges, header values (empty, huge, type-confused), bucket names, keys, signed and unsigned aws-chunked framing (sizes ffffffffffffffff / 7fffffffffffffff / -1, 1 KiB headers, missing delimiters) — with valid credentials, a wrong secret, an unknown access key and no credentials, each followed by a liveness probe (root request, account creation, request by the new account, account deletion), executed in worker processes the driver restarts when one dies; distinct = distinct case")
+	r.Rule("the valid request of every endpoint shape with ONE field (TWO on the listing endpoints, thorough) replaced by every member of that field's class menu — numbers (empty, 0, -1, 2^31, 2^63, 2^64, 1e3, blanks, full-width digits), ids/markers (absent, 1 KiB, NUL, bad escapes, traversal), 31 XML bodies per document type, 17 JSON policies plus every field of a valid statement replaced by each of 26 degenerate JSON values (104 more), the authentication elements themselves (X-Amz-Date, the day of the credential scope, SignedHeaders, Signature, and their presigned forms incl. X-Amz-Expires) replaced after signing by 16 date-like / 13 token values, copy sources, ranges, header values (empty, huge, type-confused), bucket names, keys, signed and unsigned aws-chunked framing (sizes ffffffffffffffff / 7fffffffffffffff / -1, 1 KiB headers, missing delimiters) — with valid credentials, a wrong secret, an unknown access key and no credentials, each followed by a liveness probe (root request, account creation, request by the new account, account deletion), executed in worker processes the driver restarts when one dies; distinct = distinct case")
 	r.Assume("the worker process stands for the gateway process: a panic that kills it is attributed to the in-flight case; allocation is measured as runtime.MemStats.TotalAlloc delta of the otherwise idle worker (limit 64 MiB + 4×body)")
 	n := 16
 	dir, cleanup := ck.Scratch("c20drv")
